@@ -57,7 +57,8 @@ fn lexical(parent: &Path, rel: &str) -> String {
 }
 
 fn packaged_path(root: &Path, idname: &str) -> PathBuf {
-    root.join("packaged").join(idname.replace('/', "_"))
+    // URI-safe characters beyond [A-Za-z0-9._~-]: legal in a path reference, to be written as they are
+    root.join("pack+aged@1,x=y").join(idname.replace('/', "_"))
 }
 
 type Viol = (String, String, serde_json::Value);
@@ -240,7 +241,7 @@ pub fn run(args: &Args) {
         tuples.extend(next.clone());
         level = next;
     }
-    let srcs = ["s", "deep/er/s"];
+    let srcs = ["s", "deep/er/s", "w+s/u@h,x=y;z"];
     for t in &tuples {
         for map in 0..4u8 {
             for (i, src) in srcs.iter().enumerate() {
@@ -305,7 +306,7 @@ pub fn run(args: &Args) {
     rep.cov("repackaging_pairs", pairs);
     rep.cov("dependency_tuples", tuples.len() as u64);
     rep.cov("distinct_outcomes", json!(outcomes));
-    rep.cov("rule", "package.toml documents built from all ordered dependency tuples (repetition allowed) over 7 URI kinds x id->path maps {complete, missing x/y, missing z, empty} x 2 source locations x platform x 7 buildpack uris (., ./, relative, parent-relative, absolute, docker, urn), plus every ordered pair of 18 descriptors packaged one after the other into the same destination (the second result must be what a fresh destination gives), plus every relative path of <= k segments over {a, ., .., empty} with/without leading ./ and trailing /, run through the real package_composite_buildpack; the written file is re-read generically and compared with the reference (lexical normalisation). non-trivial = at least one dependency");
+    rep.cov("rule", "package.toml documents built from all ordered dependency tuples (repetition allowed) over 7 URI kinds x id->path maps {complete, missing x/y, missing z, empty} x 3 source locations (one with the URI-safe sub-delimiters + @ , = ;) x platform x 7 buildpack uris (., ./, relative, parent-relative, absolute, docker, urn), plus every ordered pair of 18 descriptors packaged one after the other into the same destination (the second result must be what a fresh destination gives), plus every relative path of <= k segments over {a, ., .., empty} with/without leading ./ and trailing /, run through the real package_composite_buildpack; the written file is re-read generically and compared with the reference (lexical normalisation). non-trivial = at least one dependency");
     rep.cov("bound", json!({"max_tuple_len": max_len, "max_segments": max_segs}));
     rep.cov("exhaustive", true);
     rep.sample(json!(cases[cases.len() / 3]));
